@@ -23,7 +23,7 @@ CHECKS = {
               "Non-trivial: window crosses a unit boundary with a clipped first or last period, contains Feb 29, or start>end (library); "
               ">=2 periods with a window flag or --last (CLI)."),
         assumptions=["negative --last values are outside the statement and not generated", "dates 1900-2100"],
-        quick=dict(tests=[dict(name="TestC11", cases=160000), dict(name="TestC11CLI", cases=1600)]),
+        quick=dict(tests=[dict(name="TestC11", cases=320000), dict(name="TestC11CLI", cases=4800)]),
         thorough=dict(tests=[dict(name="TestC11", cases=1600000), dict(name="TestC11CLI", cases=16000),
                              dict(name="TestSweepC11", cases=1, env=dict(VERIF_SWEEP=1))]),
     ),
@@ -36,7 +36,7 @@ CHECKS = {
               "rejected: stderr non-empty, stdout empty, and for single-damage cases stderr contains the date and account of the first offending directive. "
               "Non-trivial: the verdict involves same-day open/use/assert/close of one account, or exactly one damage led to rejection; distinct by journal text."),
         assumptions=["within one file, arrival order is file order", "accrual split rule as documented (x/n truncated at one decimal, remainder first)"],
-        quick=dict(tests=[dict(name="TestC04", cases=8000)]),
+        quick=dict(tests=[dict(name="TestC04", cases=16000)]),
         thorough=dict(tests=[dict(name="TestC04", cases=320000)]),
     ),
     "C10": dict(
@@ -48,7 +48,7 @@ CHECKS = {
               "income/expense legs appear once per period of the reference partition dated at the period ends, all other legs on the original date. "
               "Non-trivial: >=2 periods and (amount not divisible at one decimal, negative amount, >=2 bookings, or an equity leg); distinct by transaction."),
         assumptions=["equal-sized parts are not asserted (not promised by the statement)", "windows with start>end are outside the property (C14 covers the crash)"],
-        quick=dict(tests=[dict(name="TestC10", cases=160000), dict(name="TestC10CLI", cases=1600)]),
+        quick=dict(tests=[dict(name="TestC10", cases=320000), dict(name="TestC10CLI", cases=4800)]),
         thorough=dict(tests=[dict(name="TestC10", cases=3200000), dict(name="TestC10CLI", cases=32000)]),
     ),
     "C01": dict(
@@ -60,7 +60,7 @@ CHECKS = {
               "Oracle: invariant over the report - every Delta cell is zero and Total (A+L) equals the displayed Total (E+I+E) per commodity and column. "
               "Non-trivial: >=2 transactions, a non-zero total cell, and (valued or >=2 commodities or >=2 columns); distinct by (journal text, flags)."),
         assumptions=["a non-zero exit of knut makes the case vacuous for C01 (label knut-rejected in the histogram; C04/C03 decide those)"],
-        quick=dict(tests=[dict(name="TestC01", cases=8000)]),
+        quick=dict(tests=[dict(name="TestC01", cases=24000)]),
         thorough=dict(tests=[dict(name="TestC01", cases=160000)]),
     ),
     "C02": dict(
@@ -73,7 +73,7 @@ CHECKS = {
               "the set of account rows (booked accounts plus ancestors), totals and Delta. Row order is not compared (C06). Where --remap and -m are both given and the two "
               "application orders differ, either is accepted. Non-trivial: >=3 in-window bookings, >=2 non-zero cells and a mapping/remap/filter/diff/last or closing over >=2 columns."),
         assumptions=["accrual split rule as documented", "knut's regexp engine (Go regexp) is also used by the reference for flag regexes"],
-        quick=dict(tests=[dict(name="TestC02", cases=8000)]),
+        quick=dict(tests=[dict(name="TestC02", cases=24000)]),
         thorough=dict(tests=[dict(name="TestC02", cases=160000)]),
     ),
     "C12": dict(
@@ -90,7 +90,7 @@ CHECKS = {
         assumptions=["prices are declared with at most 8 decimals and are positive (the statement does not say what a longer or negative price means)",
                      "CLI: declarations of one journal get pairwise different dates (same-day order is not part of the statement)",
                      "the reciprocal may be either neighbouring 8-decimal value when the exact quotient lies within 1e-16 below a boundary"],
-        quick=dict(tests=[dict(name="TestC12", cases=20000), dict(name="TestC12CLI", cases=320)]),
+        quick=dict(tests=[dict(name="TestC12", cases=60000), dict(name="TestC12CLI", cases=1600)]),
         thorough=dict(tests=[dict(name="TestC12", cases=300000), dict(name="TestC12CLI", cases=5000)]),
     ),
     "C03": dict(
@@ -105,7 +105,7 @@ CHECKS = {
               "A price missing for a booking inside the window must give exit!=0, stderr, empty stdout; all prices present must give a report. "
               "Non-trivial: a non-V A/L position is held across a price change inside the window and (chain or inverse price, a liability, or >=2 columns); or a missing price in the window."),
         assumptions=["forest price graphs only (unique chain)", "a reciprocal within 1e-16 below an 8-decimal boundary is not generated (probability ~1e-8 per price)"],
-        quick=dict(tests=[dict(name="TestC03", cases=6400)]),
+        quick=dict(tests=[dict(name="TestC03", cases=19200)]),
         thorough=dict(tests=[dict(name="TestC03", cases=128000)]),
     ),
     "C08": dict(
@@ -122,7 +122,7 @@ CHECKS = {
         assumptions=["knut's parser reads both sides (trusted via C07)",
                      "alignment, trailing blanks, line-ending style and annotation-line order inside a directive are layout and not compared",
                      "a directive's terminating newline belongs to the directive where the parser says so (transactions, multi-line assertions)"],
-        quick=dict(tests=[dict(name="TestC08", cases=32000), dict(name="TestC08CLI", cases=800)]),
+        quick=dict(tests=[dict(name="TestC08", cases=96000), dict(name="TestC08CLI", cases=2400)]),
         thorough=dict(tests=[dict(name="TestC08", cases=320000), dict(name="TestC08CLI", cases=5600)],
                       fuzz=[dict(name="FuzzC08", seconds=90, seed_corpus=True)]),
     ),
@@ -136,7 +136,7 @@ CHECKS = {
               "arrival order). Import and infer determinism are checked inside C13 and C15. Non-trivial: the input contains >=1 tie/alternative (sibling accounts, same-day "
               "same-kind directives, several files, alternative price paths, performance targets); distinct by (files, argv)."),
         assumptions=["detection of an order dependence with per-run probability p is 1-(1-p)^(K-1) per input; the schedule is perturbed, not controlled"],
-        quick=dict(tests=[dict(name="TestC06", cases=1600)]),
+        quick=dict(tests=[dict(name="TestC06", cases=3200)]),
         thorough=dict(tests=[dict(name="TestC06", cases=16000)]),
     ),
     "C05": dict(
@@ -147,7 +147,7 @@ CHECKS = {
               "have the same accept/reject verdict on both; balance stdout is byte-identical; print stdout, read by the harness's own reader, is in (date, kind) order on both sides and "
               "equal as a multiset per (date, kind) group. Non-trivial: the variant moves >=2 directives to a position with another date or kind, or uses >=3 files with nesting depth >=2."),
         assumptions=["which diagnostic a rejected journal gets is not compared (only that both are rejected)"],
-        quick=dict(tests=[dict(name="TestC05", cases=1600)]),
+        quick=dict(tests=[dict(name="TestC05", cases=4000)]),
         thorough=dict(tests=[dict(name="TestC05", cases=32000)]),
     ),
     "C09": dict(
@@ -157,7 +157,7 @@ CHECKS = {
               "Oracle (round trip): P1 = knut print J exits 0; knut check P1 exits 0; knut print P1 == P1 byte for byte; for 1-3 drawn balance flag sets (all families, valued "
               "when prices exist) knut balance J == knut balance P1 byte for byte (and same exit status). Non-trivial: J has >=1 special feature and P1 != J; distinct by (journal, flags)."),
         assumptions=["balance output is deterministic (C06)"],
-        quick=dict(tests=[dict(name="TestC09", cases=1600)]),
+        quick=dict(tests=[dict(name="TestC09", cases=4800)]),
         thorough=dict(tests=[dict(name="TestC09", cases=32000)]),
     ),
     "C17": dict(
@@ -173,7 +173,7 @@ CHECKS = {
               "empty cells verbatim, same (row, column) once blank and separator rows are dropped. CLI: text cells = reference rounding of the CSV cells at the same position, "
               "labels and header equal. Non-trivial: >=2 numeric columns of different natural width and a value that is grouped or sits exactly on a rounding boundary."),
         assumptions=["width is counted in runes (not terminal cells), as the property's anchors state"],
-        quick=dict(tests=[dict(name="TestC17", cases=24000), dict(name="TestC17CLI", cases=800)]),
+        quick=dict(tests=[dict(name="TestC17", cases=48000), dict(name="TestC17CLI", cases=2400)]),
         thorough=dict(tests=[dict(name="TestC17", cases=320000), dict(name="TestC17CLI", cases=8000)]),
     ),
     "C13": dict(
@@ -200,10 +200,10 @@ CHECKS = {
                      "characters that need it are carried in CSV fields by RFC-4180 quoting (doubled quotes); newlines inside fields are not generated",
                      "swisscard2 credit rows carry a negative Betrag (the golden file has charges only)",
                      "cumulus payment-section texts never look like a date (the importer recognises booking rows by two date-like leading fields)"],
-        quick=dict(tests=[dict(name="TestC13A_Cumulus", cases=160, shards=1), dict(name="TestC13A_Postfinance", cases=160, shards=1), dict(name="TestC13A_Supercard", cases=160, shards=1),
-                          dict(name="TestC13A_Swisscard", cases=160, shards=1), dict(name="TestC13A_Swisscard2", cases=160, shards=1), dict(name="TestC13A_Viac", cases=160, shards=1),
-                          dict(name="TestC13B_Revolut", cases=320, shards=2), dict(name="TestC13B_Revolut2", cases=320, shards=2), dict(name="TestC13B_Wise", cases=320, shards=2),
-                          dict(name="TestC13B_Swissquote", cases=320, shards=2), dict(name="TestC13B_InteractiveBrokers", cases=320, shards=2)]),
+        quick=dict(tests=[dict(name="TestC13A_Cumulus", cases=400, shards=2), dict(name="TestC13A_Postfinance", cases=400, shards=2), dict(name="TestC13A_Supercard", cases=400, shards=2),
+                          dict(name="TestC13A_Swisscard", cases=400, shards=2), dict(name="TestC13A_Swisscard2", cases=400, shards=2), dict(name="TestC13A_Viac", cases=400, shards=2),
+                          dict(name="TestC13B_Revolut", cases=640, shards=2), dict(name="TestC13B_Revolut2", cases=640, shards=2), dict(name="TestC13B_Wise", cases=640, shards=2),
+                          dict(name="TestC13B_Swissquote", cases=640, shards=2), dict(name="TestC13B_InteractiveBrokers", cases=640, shards=2)]),
         thorough=dict(tests=[dict(name="TestC13A_Cumulus", cases=3200, shards=4), dict(name="TestC13A_Postfinance", cases=3200, shards=4), dict(name="TestC13A_Supercard", cases=3200, shards=4),
                              dict(name="TestC13A_Swisscard", cases=3200, shards=4), dict(name="TestC13A_Swisscard2", cases=3200, shards=4), dict(name="TestC13A_Viac", cases=3200, shards=4),
                              dict(name="TestC13B_Revolut", cases=4800, shards=4), dict(name="TestC13B_Revolut2", cases=4800, shards=4), dict(name="TestC13B_Wise", cases=4800, shards=4),
@@ -218,7 +218,7 @@ CHECKS = {
               "equals the reference valued-transaction list (DESIGN App. B.5: every booking valued at the booking day's price, plus one adjustment per price change and open non-V A/L position). "
               "Non-trivial: >=2 user transactions and >=1 value adjustment; distinct by (journal, V)."),
         assumptions=["forest price graphs only", "journals with a missing price are left to C03"],
-        quick=dict(tests=[dict(name="TestC16", cases=3200)]),
+        quick=dict(tests=[dict(name="TestC16", cases=12800)]),
         thorough=dict(tests=[dict(name="TestC16", cases=64000)]),
     ),
     "C15": dict(
@@ -249,7 +249,7 @@ CHECKS = {
               "unchanged prices and only deposits/withdrawals in V shows 0.0%. Non-trivial (weights): >=2 dates compared and >=2 commodities held; (returns): >=2 periods, >=1 flow-free or "
               "deposit-only period, and a period end on a directive-free day."),
         assumptions=["dates whose total holdings are (nearly) zero are skipped (shares undefined)", "weights without --from (the balance drops history before --from, weights do not)"],
-        quick=dict(tests=[dict(name="TestC20Weights", cases=1600), dict(name="TestC20Returns", cases=3200)]),
+        quick=dict(tests=[dict(name="TestC20Weights", cases=4800), dict(name="TestC20Returns", cases=9600)]),
         thorough=dict(tests=[dict(name="TestC20Weights", cases=32000), dict(name="TestC20Returns", cases=64000)]),
     ),
     "C19": dict(
@@ -289,7 +289,7 @@ CHECKS = {
         assumptions=["RLIMIT_FSIZE faults stand for 'the write is cut short at byte k' (write returns EFBIG after k bytes); power loss between write and rename is not modelled",
                      "uid 65534 + mode 0555 stands for an unwritable directory (the harness itself runs as root)",
                      "fetch (third user of atomic.WriteFile) needs the network and is not exercised"],
-        quick=dict(tests=[dict(name="TestC18", cases=128)]),
+        quick=dict(tests=[dict(name="TestC18", cases=256)]),
         thorough=dict(tests=[dict(name="TestC18", cases=1280)]),
     ),
     "C14": dict(
@@ -308,7 +308,7 @@ CHECKS = {
         assumptions=["windows <= 200 years and interval flags chosen so that legitimate tables stay below ~20k columns; files <= 64 KB",
                      "format does not follow includes and the infer target is parsed alone: the bad-include rule is applied to check, balance, print, transcode, portfolio and the infer training file",
                      "unreadable files are represented by symlink loops and dangling symlinks (the sandbox runs as root, so permission bits are not effective)"],
-        quick=dict(tests=[dict(name="TestC14", cases=4800)]),
+        quick=dict(tests=[dict(name="TestC14", cases=12000)]),
         thorough=dict(tests=[dict(name="TestC14", cases=48000)],
                       fuzz=[dict(name="FuzzC14", seconds=120, seed_corpus=True)]),
     ),
